@@ -23,10 +23,10 @@ BRIDGES = {
     'C04': ['KernelGen.interrupt_generated_eq_model', 'KernelGen.process_start_generated_eq_model', 'KernelGen.schedule_generated_eq_model',
             'KernelGen.process_end_generated_eq_model'],
     'C05': ['KernelGen.evaluate_generated_eq_model', 'KernelGen.cond_check_generated_eq_model', 'KernelGen.step_crash_generated_eq_model'],
-    'C06': ['KernelGen.resource_do_put_generated_eq_model', 'KernelGen.resource_guard_generated_eq_model',
+    'C06': ['KernelGen.resource_do_put_generated_eq_model', 'KernelGen.resource_guard_generated_eq_model', 'KernelGen.put_guards_generated_eq_model',
             'KernelGen.resource_do_get_generated_eq_model', 'KernelGen.priority_key_generated_eq_model',
             'KernelGen.preemptive_do_put_generated_eq_model', 'KernelGen.cancel_generated_eq_model'],
-    'C07': ['KernelGen.container_do_put_generated_eq_model', 'KernelGen.container_do_get_generated_eq_model',
+    'C07': ['KernelGen.put_guards_generated_eq_model', 'KernelGen.container_do_put_generated_eq_model', 'KernelGen.container_do_get_generated_eq_model',
             'KernelGen.container_amount_guard_generated_eq_model', 'KernelGen.store_generated_eq_model',
             'KernelGen.priority_store_generated_eq_model', 'KernelGen.filter_store_generated_eq_model', 'KernelGen.cancel_generated_eq_model'],
 }
